@@ -604,6 +604,28 @@ def _returns_in_loops(stmts, in_loop=False):
   return False
 
 
+def _falls_through(stmts):
+  """Can control run off the end of this statement list (conservatively True when unsure)?"""
+  if not stmts:
+    return True
+  s = stmts[-1]
+  if isinstance(s, (ast.Return, ast.Raise, ast.Continue, ast.Break)):
+    return False
+  if isinstance(s, ast.If):
+    return _falls_through(s.body) or _falls_through(s.orelse)
+  if isinstance(s, (ast.With, ast.AsyncWith)):
+    return _falls_through(s.body)
+  if isinstance(s, ast.Try):
+    if s.finalbody and not _falls_through(s.finalbody):
+      return False
+    main = _falls_through(s.orelse) if s.orelse else _falls_through(s.body)
+    return main or any(_falls_through(h.body) for h in s.handlers)
+  if isinstance(s, ast.While) and isinstance(s.test, ast.Constant) and s.test.value and \
+      not any(isinstance(x, ast.Break) for x in ast.walk(s)):
+    return False
+  return True
+
+
 def _strip_doc(body):
   if body and isinstance(body[0], ast.Expr) and isinstance(body[0].value, ast.Constant) and \
       isinstance(body[0].value.value, str):
@@ -716,7 +738,7 @@ class Inliner(object):
       return ast.copy_location(n, stmt)
     if mode == "return":
       out = pre + body
-      if not (out and isinstance(out[-1], (ast.Return, ast.Raise))):
+      if _falls_through(body):
         out.append(loc(ast.Return(value=None)))
     else:
       tail_only = all(x is body[-1] for x in rets)
@@ -729,7 +751,7 @@ class Inliner(object):
         elif x.value is not None and not isinstance(x.value, (ast.Constant, ast.Name)):
           o.append(ast.copy_location(ast.Expr(value=x.value), x))
         return o
-      falls_off = not (body and isinstance(body[-1], (ast.Return, ast.Raise)))
+      falls_off = _falls_through(body)
       if tail_only:
         out = pre + body[:-1] + conv(body[-1]) if rets else pre + body
         if falls_off and mode == "assign":
@@ -1170,10 +1192,13 @@ def inliner(w):
 def reaching_defs(cfg, du, nid, name):
   """Ids of the nodes whose binding of `name` may be the one seen on entry to node nid."""
   defs = du.defs.get(name, set())
+  live = getattr(cfg, "_live_nodes", None)
+  if live is None:
+    live = cfg._live_nodes = cfg.reach({cfg.entry.id})
   out, seen, work = set(), set(), list(cfg.pred[nid])
   while work:
     x = work.pop()
-    if x in seen:
+    if x in seen or x not in live:
       continue
     seen.add(x)
     if x in defs:
@@ -1201,8 +1226,42 @@ def value_at(fn, cfg, du, nid, e, depth=0):
   return ex.expand(e)
 
 
+def derefs_at(fn, cfg, du, nid, e, depth=0, _seen=None):
+  """All expressions a bare name may stand for at node nid: every reaching binding is followed
+  (`if c: r = A else: r = B; return r` gives A and B). [(expr, node id where it is evaluated)];
+  a binding that is not a plain `name = expr` yields the name itself (unresolved)."""
+  _seen = _seen if _seen is not None else set()
+  if not isinstance(e, ast.Name) or depth > 6:
+    return [(e, nid)]
+  rd = reaching_defs(cfg, du, nid, e.id)
+  if not rd:
+    return [(e, nid)]
+  out = []
+  for d_ in sorted(rd):
+    if (d_, e.id) in _seen:
+      continue
+    _seen.add((d_, e.id))
+    d = cfg.nodes[d_]
+    s = d.stmt
+    if d.kind == "stmt" and isinstance(s, ast.Assign) and len(s.targets) == 1 and \
+        isinstance(s.targets[0], ast.Name):
+      out += derefs_at(fn, cfg, du, d.id, s.value, depth + 1, _seen)
+    else:
+      out.append((e, nid))
+  return out or [(e, nid)]
+
+
+def values_at(fn, cfg, du, nid, e):
+  """All values expression e may have at node nid (see derefs_at), locals expanded."""
+  ex = expander(fn)
+  if isinstance(e, ast.Name) and e.id in ex.vals:
+    return [ex.expand(e)]
+  return [ex.expand(v) for (v, at) in derefs_at(fn, cfg, du, nid, e)]
+
+
 def returns_of(fn, cfg=None):
-  """[(cfg node, Return stmt, resolved value expr or None)] for every return of the function."""
+  """[(cfg node, Return stmt, resolved value expr or None)] for every return of the function; a
+  returned local bound on several paths gives one entry per binding."""
   from ..dataflow import DefUse
   cfg = cfg or fn.cfg
   du = DefUse(fn, cfg)
@@ -1210,7 +1269,11 @@ def returns_of(fn, cfg=None):
   for n in cfg.nodes:
     if n.kind == "return":
       v = n.stmt.value
-      out.append((n, n.stmt, value_at(fn, cfg, du, n.id, v) if v is not None else None))
+      if v is None:
+        out.append((n, n.stmt, None))
+      else:
+        for x in values_at(fn, cfg, du, n.id, v):
+          out.append((n, n.stmt, x))
   return out
 
 
